@@ -35,6 +35,24 @@ def suite_ok(wt, scratch):
     return broken
 
 
+def suite_only(patch):
+    """the repository's own suite on the patched tree, in its own scratch worktree (runs beside the checks)"""
+    base = '/dev/shm' if os.path.isdir('/dev/shm') else tempfile.gettempdir()
+    scratch = tempfile.mkdtemp(prefix='fcsuite_', dir=base)
+    wt = os.path.join(scratch, 'repo')
+    try:
+        subprocess.run(['git', '-C', '/repo', 'worktree', 'add', '--detach', wt, 'HEAD', '-q'], check=True)
+        r = subprocess.run(['git', '-C', wt, 'apply', patch], capture_output=True, text=True)
+        if r.returncode != 0:
+            return ['patch does not apply']
+        return suite_ok(wt, scratch)
+    except Exception as e:
+        return ['suite run failed: %s' % e]
+    finally:
+        subprocess.run(['git', '-C', '/repo', 'worktree', 'remove', '--force', wt], capture_output=True)
+        shutil.rmtree(scratch, ignore_errors=True)
+
+
 def run_one(patch, props, tier='quick', check_suite=True):
     base = '/dev/shm' if os.path.isdir('/dev/shm') else tempfile.gettempdir()
     scratch = tempfile.mkdtemp(prefix='fcsens_', dir=base)
@@ -59,7 +77,6 @@ def run_one(patch, props, tier='quick', check_suite=True):
     finally:
         subprocess.run(['git', '-C', '/repo', 'worktree', 'remove', '--force', wt], capture_output=True)
         shutil.rmtree(scratch, ignore_errors=True)
-        subprocess.run(['git', '-C', '/repo', 'worktree', 'prune'], capture_output=True)
     return rec
 
 
@@ -78,8 +95,14 @@ def main():
         jobs = [j for j in jobs if any(o in j[0] for o in only)]
     report = []
     missed = 0
+    # the suite runs (one core each) proceed in a small pool beside the checks (which use all cores, one at a time)
+    import concurrent.futures as cf
+    pool = cf.ThreadPoolExecutor(max_workers=3)
+    suites = {f: pool.submit(suite_only, f) for f, _ in jobs} if '--no-suite' not in args else {}
     for f, props in jobs:
-        rec = run_one(f, props, check_suite='--no-suite' not in args)
+        rec = run_one(f, props, check_suite=False)
+        if f in suites:
+            rec['suite_broken'] = suites[f].result()
         report.append(rec)
         for p, c in rec.get('checks', {}).items():
             ok = c['rc'] == 1
@@ -93,6 +116,7 @@ def main():
         sys.stdout.flush()
         with open(os.path.join(HERE, 'sensitivity_report.json'), 'w') as fh:
             json.dump(report, fh, indent=1)
+    subprocess.run(['git', '-C', '/repo', 'worktree', 'prune'], capture_output=True)
     print('%d/%d caught' % (len(report) - missed, len(report)))
     return 0 if missed == 0 else 1
 
